@@ -42,6 +42,9 @@ WORLDS = {
     "W64-255-edext": (["FP_PRIME=255", "ED_METHD=EXTND;LWNAF;COMBS;INTER"], ""),
     "W8-edext": (["WSIZE=8", "FP_PRIME=16", "BN_PRECI=64", "FB_POLYN=17", "RAND=CALL", "ED_METHD=EXTND;LWNAF;COMBS;INTER"], ""),
     "W64-381": (["FP_PRIME=381"], ""),
+    "W64-446": (["FP_PRIME=446"], ""),
+    "W64-446q": (["FP_PRIME=446", "FP_QNRES=on"], ""),
+    "W64-638q": (["FP_PRIME=638", "FP_QNRES=on", "BN_PRECI=2048"], ""),
     "W64-dyn-san": (["ALLOC=DYNAMIC"], SAN),
     "W64-mt": (["MULTI=PTHREAD"], ""),
     "W64-mt-tsan": (["MULTI=PTHREAD"], "-fsanitize=thread -O1 -g"),
